@@ -266,6 +266,8 @@ def make_jobs(tier, seed):
     for i, (N, P) in enumerate(layouts(tier)):
         for k in range(nseeds):
             env = {"YGM_COMM_ROUTING": ROUTINGS[(i + k + seed) % 3]}
+            if N > 1 and k % 2 == 1:
+                env["SIMMPI_PLACEMENT"] = "cyclic"      # round-robin placement: the collectives' communicator must keep the ygm rank numbering
             jobs.append({"mode": "vals", "nodes": N, "ppn": P, "seed": seed * 101 + k, "rounds": rounds, "nfn": 7,
                          "sim_seed": seed * 977 + i * 13 + k, "policy": POLICIES[(i + k) % len(POLICIES)], "env": env})
     arounds = 7 if tier == "quick" else 21
